@@ -57,4 +57,22 @@ TEXT = {
         "level_note": TRUST + " Exhaustive up to the stated depth only; the exit function is a non-returning stub installed through the verif hook.",
         "technique": "exhaustive fault-plan enumeration against a reference model, plus rapid-generated deeper plans",
     },
+    "C04": {
+        "level_text": "Model-based property-based testing on generated command trees: the argument vector is split at alias tokens, each level is judged by the reference semantics on its own tokens; the recorded hook log must show exactly the addressed command's Action once (with the Before/After frame) and each level's recorder bindings must be a derivation of that level's own tokens, or else an error and an empty log.",
+        "design_ref": "DESIGN.md section 5 (C04)",
+        "level_note": TRUST + " Cases decided only by the recorded greedy-group finding (F3) at some level are set aside.",
+        "technique": "model-based property-based testing over generated command trees (rapid)",
+    },
+    "C07": {
+        "level_text": "Model-based property-based testing over (command tree, error policy, rejection kind): the model names the rejecting level; the check observes the hook log, the captured error stream, Run's return value, the exit stub and the recovered panic, and additionally requires the error stream to be identical across the three policies.",
+        "design_ref": "DESIGN.md section 5 (C07)",
+        "level_note": TRUST + " Conversion failures are produced by recorder value types that fail on a reserved token (same code path as the built-in types, which C13 covers).",
+        "technique": "model-based property-based testing over trees x policies (rapid), cross-policy differential",
+    },
+    "C14": {
+        "level_text": "Model-based property-based testing: a help token at every kind of position (any level, before/after invalid tokens, behind '--') and version requests, under the three policies; observes which command's usage and long description are printed, the hook log, the exit stub and Run's return.",
+        "design_ref": "DESIGN.md section 5 (C14)",
+        "level_note": TRUST + " The shape the property itself excludes (help below an ancestor whose own arguments contain '--') is counted, not asserted.",
+        "technique": "model-based property-based testing over trees x policies x help-token positions (rapid)",
+    },
 }
